@@ -25,6 +25,7 @@ ASSUMPTIONS = [
     "the linker/.init_array constructor mechanism and syn parsing are exercised end-to-end by the real crates, not modelled: C12 is partial at proof level",
     "theorems relating tree and flat semantics carry the guard `no_name_clash` (no generic function shares its name with a sibling module that holds benchmarks): without it the property fails in divan (finding F8)",
     "as for C14: filter = predicate on the display path, sort = any sibling permutation, no `threads` option",
+    "the model follows the repaired group attachment (final match modulo a leading r#, F12); module_path!()'s edition-dependent spelling of raw-identifier modules (spell_2015) is rustc's behaviour, taken as is",
 ]
 TRUSTED = [
     "harness/hx-run and the crate generator tools/props/treeprog.py (the generator knows line/column of every attribute it writes)",
@@ -235,6 +236,11 @@ def streams(tier, rng):
             syn.append(reg.line("TRL", ign=ign, exact=exact, pos=pos, skip=skip))
     progs = real_programs(tier, rng)
     real = prog_lines(rng, progs, 3 if not big else 6)
+    # one edition-2015 crate: module_path!() drops the r# of raw-identifier modules that are not keywords there
+    p2015 = P.edition_2015_crate()
+    progs.append(p2015)
+    real += [p2015.line("DOTRL", exe_path(p2015), ign="n"), p2015.line("TRL", exe_path(p2015), ign="y"),
+             p2015.line("TR", exe_path(p2015), ign="o")]
     out = []
     if corpus:
         out.append(Stream("corpus", "c12", corpus, nontrivial=nt))
@@ -293,7 +299,9 @@ MANIFEST = {
             "registration order when group keys are distinct (C12_order_independent; the built tree itself is then equal up to sibling "
             "order, C12_order_independent_tree), the --list view is the flat listing (C12_list_view), and the run is equal to the intended flat semantics under the "
             "no-name-clash guard (C12_flat_semantics); macro level: nothing for exclusively empty lists, one "
-            "entry per function, exactly the types x consts product for generic ones, external consts 1..20 (C12_expand_*). Without the "
+            "entry per function, exactly the types x consts product for generic ones, external consts 1..20 (C12_expand_*). Groups attach modulo a leading r# "
+            "(C12_groups_attach_raw, C12_insert_group_by_key; sibling-order independent without raw twins: C12_attach_order_independent; the "
+            "exact-match code loses the group of `mod r#try` in edition 2015: C12_exact_match_refuted, F12). Without the "
             "key guard the property fails in divan: C12_name_clash_refuted (finding F8). Correspondence: synthetic registries in random "
             "constructor orders and generated crates using the real attribute macros (registry dump, terse listing, --test log, --list).",
     "note": "The specification evaluated on the implementation is the tree-free 'flat' semantics (every entry at its module path, bench_group "
